@@ -167,7 +167,8 @@ theorem handleProcessorError_pres (cfg : Cfg) (f : Fail) (hf : f ≠ .tooSmall) 
 theorem stopRetry_pres (cfg : Cfg) : Pres cfg stopRetry := by pres_leaf [stopRetry]
 theorem stopTimers_pres (cfg : Cfg) : Pres cfg stopTimers := by pres_leaf [stopTimers]
 /-- `stop()`'s last statements, once the refetch timer is gone -/
-theorem stopFinish_good {cfg : Cfg} {s0 s : St} (h : Good cfg s0 s) (hq : retryPending s.retryCall = false) :
+theorem stopFinish_good {cfg : Cfg} {s0 s : St} (h : Good cfg s0 s) (hq : retryPending s.retryCall = false)
+    (hrq : activeReq s.requestD = none) (hpk : s.parked = none) :
     Good cfg s0 (stopFinish s) := by
   unfold stopFinish crash
   simp only []
